@@ -12,6 +12,13 @@ def block_case(rng, mode, n_ops, with_state=True, oneshot=False, padded=False, d
     key, iv = rb(rng, 16), rb(rng, ivlen(mode, bs))
     c = Case("block", mode, bs, w, key, iv, cls_bs="1" if bs == 1 else ("small" if bs < 8 else ("16" if bs == 16 else "other")))
     maxb = 3 * w + 2 if mbs > 1 else 3 * bs + 2
+    if rng.random() < 0.04:
+        # many small calls on one object (anything that counts calls rather than data)
+        c.meta["cls_many"] = 1
+        for _ in range(rng.randrange(30, 80)):
+            k = rng.choice([1, 1, 1, 2, 0])
+            c.ops.append(f"block {hx(rb(rng, mbs))}" if k == 1 and rng.random() < 0.6 else f"blocks {hx(rb(rng, k * mbs))}")
+        n_ops = 0
     for _ in range(n_ops):
         r = rng.random()
         if r < 0.25:
@@ -67,6 +74,12 @@ def buf_case(rng, mode, total=None):
         # mostly short streams; sometimes long ones with calls of many whole blocks issued mid-block
         total = rng.randrange(0, 4 * bs + 3) if rng.random() < 0.7 else rng.randrange(8 * bs, 22 * bs + 3)
     bias = [1, bs - 1, bs, bs + 1, 2 * bs]
+    if rng.random() < 0.04:
+        # many tiny calls
+        c.meta["cls_many"] = 1
+        for _ in range(rng.randrange(30, 80)):
+            c.ops.append(f"data {hx(rb(rng, rng.choice([0, 1, 1, 2, bs - 1, bs, bs + 1])))}")
+        return c
     if total > 6 * bs:
         bias = [1, 3, bs - 1, bs, 8 * bs, 9 * bs, 10 * bs, 12 * bs, 16 * bs]
     for k in random_composition(rng, total, bias=bias):
@@ -106,8 +119,16 @@ def stream_case(rng, mode, seeks=True, near_limit=False, n_ops=None, w_pref=None
     iv, cls = stream_iv(rng, mode, bs, key)
     c = Case("stream", mode, bs, w, key, iv, cls_iv=cls)
     n_ops = n_ops or rng.randrange(1, 8)
+    if rng.random() < 0.04:
+        c.meta["cls_many"] = 1
+        for _ in range(rng.randrange(30, 80)):
+            c.ops.append(f"apply {hx(rb(rng, rng.choice([0, 1, 1, 2, bs - 1, bs, bs + 1])))}")
+        n_ops = 1
     for _ in range(n_ops):
         r = rng.random()
+        if len(c.ops) and r < 0.08:
+            c.ops.append(c.ops[-1])          # the same call twice in a row
+            continue
         if r < 0.55:
             L = rng.choice([0, 1, bs - 1, bs, bs + 1, w * bs, w * bs + 1, (w + 1) * bs + bs // 2, rng.randrange(0, (2 * w + 2) * bs + 1)])
             c.ops.append(f"apply {hx(rb(rng, L))}")
@@ -244,6 +265,9 @@ def seek_case(rng, mode, allow_past_end=False):
     q = 0
     for _ in range(rng.randrange(2, 9)):
         r = rng.random()
+        if len(c.ops) and r < 0.06 and not c.ops[-1].startswith("apply"):
+            c.ops.append(c.ops[-1])          # the same seek / position query twice in a row
+            continue
         if r < 0.4:
             T = rng.choice(list(SN_MAX))
             cls_p = rng.choice(["zero", "small", "inblock", "boundary", "big32", "big31", "big64", "end", "back"])
